@@ -296,18 +296,42 @@ def rule_phis_and_locals(ctx):
         ctx.check(R, "new_phi_statement/unversioned-target-empty-args", okk, t[:200], site(SI, f))
     f = find_fn(SI, "ensure_phi_argument")
     if f is not None:
+        from pathcond import enumerate_paths
+
         push = list(method_calls(f["body"], "push"))
-        ok = False
-        cs = [fact_str(c).replace(" ", "") for c in (conditions_to(f["body"], push[0]) or [])] if push else []
         envp = (sgrep.params(f) or [None])[0]
-        if len(push) == 1 and envp:
+        okall = bool(push) and bool(envp)
+        dets = []
+        for p_ in push:
+            cs_f = conditions_to(f["body"], p_) or []
+            cs = [fact_str(c).replace(" ", "") for c in cs_f]
             b = {}
-            if sgrep.match(sgrep.pattern("__n.with_version(__v)"), push[0]["args"][0], b) and b["__n"] in ("var", "name"):
+            ok1 = False
+            if sgrep.match(sgrep.pattern("__n.with_version(__v)"), p_["args"][0], b) and b["__n"] in ("var", "name"):
                 # the version pushed is the one bound by `Some(v) = env.get_current_version(name)` on the way to the push
-                for c in conditions_to(f["body"], push[0]) or []:
+                for c in cs_f:
                     if c[0] == "iflet" and c[3] and render(c[1]).replace(" ", "") == "Some(%s)" % b["__v"] and sgrep.match(sgrep.pattern("%s.get_current_version(%s)" % (envp, b["__n"])), c[2], {}):
-                        ok = True
-        ctx.check(R, "ensure_phi_argument/argument-is-current-version", ok, "push under %s" % cs, site(SI, f))
+                        ok1 = True
+            elif sgrep.match(sgrep.pattern("__n.without_version()"), p_["args"][0], b) and b["__n"] in ("var", "name"):
+                # the unassigned initial value: only on the edge along which the environment has no version of the variable
+                ok1 = any(c[0] == "iflet" and c[3] and render(c[1]).replace(" ", "") == "None" and sgrep.match(sgrep.pattern("%s.get_current_version(%s)" % (envp, b["__n"])), c[2], {}) for c in cs_f)
+            okall = okall and ok1
+            dets.append("push(%s) under %s" % (render(p_["args"][0])[:40], cs))
+        ctx.check(R, "ensure_phi_argument/argument-is-current-version", okall, "; ".join(dets) or "no push", site(SI, f))
+        # every incoming edge contributes an argument: a path through the phi arm either adds one or finds it present.
+        # An edge along which the variable was never assigned (`var x; if (c) { x = 1; }`) must leave a trace too -
+        # otherwise the phi looks as if it were determined by the other edges alone and `x` is claimed constant.
+        silent = []
+        npaths = 0
+        for conds, atoms, ex in enumerate_paths(f["body"]):
+            if ex == "panic" or not any(c[0] in ("arm", "iflet") and "Phi" in fact_str(c) and (c[0] == "arm" or c[3]) for c in conds):
+                continue
+            npaths += 1
+            adds = any(m_["k"] == "MethodCall" and m_["method"] == "push" for a_ in atoms for m_ in walk(a_))
+            present = any(c[0] == "if" and c[2] and strip(c[1])["k"] == "MethodCall" and strip(c[1])["method"] == "any" for c in conds)
+            if not adds and not present:
+                silent.append([fact_str(c) for c in conds if "Phi" not in fact_str(c)][:3])
+        ctx.check(R, "ensure_phi_argument/every-edge-contributes", npaths >= 2 and not silent, "paths through the phi arm that neither add an argument nor find it present: %s" % silent[:2] if silent else "%d paths, each adds an argument or finds it present" % npaths, site(SI, f))
     # Statement::insert_ssa_variables: Substitution arm
     f = None
     for q, fn in fns_in_file(SI):
